@@ -137,7 +137,13 @@ func (err *yamlParseError) Error() string {
 			}
 		}
 	}
-	linestr, line, column := getLineByOffset(err.contents, index+1)
+	// The index counts characters, not bytes.
+	var offset int
+	for ; index > 0 && offset < len(err.contents); index-- {
+		_, size := utf8.DecodeRuneInString(err.contents[offset:])
+		offset += size
+	}
+	linestr, line, column := getLineByOffset(err.contents, offset+1)
 	return fmt.Sprintf("invalid yaml: %s:%d\n%s  %s",
 		err.fname, line, formatLineInfo(linestr, line, column), message)
 }
